@@ -24,7 +24,7 @@ RULE = ('(stabilizer group, ordered basis, sign pattern, subsystem, input format
 ASSUMPTIONS = ['numpy eigvalsh / kron / trace on matrices up to 32x32 are correct (root oracle); entropies of stabilizer '
                'states are integers, compared with tolerance 1e-6',
                'bounded to N<=3 completely (quick) and N=4 (thorough: all lists with L<=3, all 2295 Lagrangian '
-               'subspaces with every 4th of their 20160 ordered bases); torch leg N<=2 (thorough N<=3)',
+               'subspaces with every 16th of their 20160 ordered bases); torch leg N<=2 (thorough N<=3)',
                'entropy() reads only the active stabilizer strings; standby rows / destabilizers are completed to a '
                'valid tableau by the check (verified against the tableau invariant for every state built)']
 
@@ -35,9 +35,24 @@ GL_ORDER = {0: 1, 1: 1, 2: 6, 3: 168, 4: 20160}
 
 # ---------------------------------------------------------------- domains (library independent)
 @functools.lru_cache(maxsize=None)
+def _G(N):
+    """ref.all_g(N), cached (read-only use)."""
+    G = ref.all_g(N)
+    G.setflags(write=False)
+    return G
+
+
+@functools.lru_cache(maxsize=None)
+def _SUP(N):
+    """Support of every string as a bit mask over qubits (bit q = acts non-trivially on qubit q)."""
+    c = ref.codes(_G(N)) != 0
+    return [int(sum(1 << q for q in range(N) if row[q])) for row in c]
+
+
+@functools.lru_cache(maxsize=None)
 def _A(N):
     """4^N x 4^N anticommutation table; string index i == integer value of the bit vector."""
-    G = ref.all_g(N)
+    G = _G(N)
     assert (ref.gindex(G) == np.arange(len(G))).all()
     return ref.anti_mat(G)
 
@@ -130,7 +145,7 @@ def complete(N, lst):
         ys.append(y)
         cand = [c for c in cand if not A[x, c] and not A[y, c]]
     rows = xs + lst + ys + ds
-    return ref.all_g(N)[rows]
+    return _G(N)[rows]
 
 
 def build(N, lst, signs):
@@ -170,7 +185,7 @@ def oracle(N, basis):
     got = _ORACLE.get(k)
     if got is not None:
         return got
-    G = ref.all_g(N)
+    G = _G(N)
     L = len(basis)
     subs = dom.subsets(N)
     out = None
@@ -228,13 +243,12 @@ def _num(v):
 
 def _crossing(N, lst, A):
     """Does some generator act non-trivially on both sides of the cut?"""
-    G = ref.all_g(N)
-    inA = np.zeros(N, dtype=bool)
+    sup = _SUP(N)
+    a = 0
     for q in A:
-        inA[q] = True
+        a |= 1 << q
     for x in lst:
-        sup = ref.codes(G[x]) != 0
-        if (sup & inA).any() and (sup & ~inA).any():
+        if (sup[x] & a) and (sup[x] & ~a):
             return True
     return False
 
@@ -261,7 +275,7 @@ class _Acc(object):
 
 
 def _desc(N, lst, signs, r):
-    G = ref.all_g(N)
+    G = _G(N)
     return 'N=%d r=%d stabilizers=[%s]' % (N, r, ','.join(ref.g_to_str(G[x], s) for x, s in zip(lst, signs)))
 
 
@@ -412,7 +426,7 @@ def fn_groups(items):
             if len(per_sub[si]) > 1:
                 acc.add('C08/entropy/generator-dependence/%s' % kind,
                         'N=%d group spanned by [%s]: entropy(%s) takes the values %s over the ordered bases of the same group' % (
-                            N, ','.join(ref.g_to_str(ref.all_g(N)[x]) for x in basis), A, sorted(per_sub[si])), sorted(per_sub[si]), E[si])
+                            N, ','.join(ref.g_to_str(_G(N)[x]) for x in basis), A, sorted(per_sub[si])), sorted(per_sub[si]), E[si])
         viol.extend(acc.out())
     return {'n': n, 'nt': nt, 'viol': viol, 'keys': keys, 'samples': samples, 'extra': extra}
 
@@ -433,7 +447,7 @@ def fn_ctor(items):
         kind = 'pure' if r == 0 else 'mixed'
         E = oracle(N, basis)
         subs = dom.subsets(N)
-        G = ref.all_g(N)
+        G = _G(N)
         want = sorted(_span(basis))
         acc = _Acc(item)
         for lst in ordered_bases(basis):
@@ -533,7 +547,7 @@ def fn_z2rank(items):
 # ---------------------------------------------------------------- torch port
 def _real_rank_formula(N, lst, A):
     """What stabilizer_entropy yields when z2rank is the REAL matrix rank (torch port), reference side."""
-    G = ref.all_g(N)
+    G = _G(N)
     gs = G[list(lst)].astype(np.float64)
     L = len(lst)
     mask2 = np.zeros(2 * N, dtype=bool)
@@ -671,10 +685,10 @@ def legs(tier):
         out.append(Leg('lists_N4_L0123', fn_groups, it, chunk=8, src_states=nlists(n4), timeout=3000,
                        bound='N=4: all isotropic subspaces of dimension <=3 (%d), ALL %d ordered lists x 1 sign pattern x 16 subsystems x formats {list, boolmask}; '
                              'local gates on every 24th ordered basis' % (len(it), nlists(n4))))
-        it = [[4, list(b), 4, 0, 1] for b in groups(4, 4)]
+        it = [[4, list(b), 16, 0, 1] for b in groups(4, 4)]
         out.append(Leg('lists_N4_L4', fn_groups, it, chunk=2, exhaustive=False, supplementary=True, timeout=3000,
-                       src_states=len(it) * GL_ORDER[4] // 4,
-                       bound='N=4 pure: all 2295 Lagrangian subspaces x every 4th of the 20160 ordered bases each (capped: 5040 per subspace) x 16 subsystems x {list, boolmask}'))
+                       src_states=len(it) * GL_ORDER[4] // 16,
+                       bound='N=4 pure: all 2295 Lagrangian subspaces x every 16th of the 20160 ordered bases each (capped: 1260 per subspace, 2.89 M lists) x 16 subsystems x {list, boolmask}'))
     tN = [(1, (0, 1)), (2, (0, 1, 2))] + ([(3, (0, 1, 2, 3))] if tier != 'quick' else [])
     it = [[N, list(b), 1] for N, Ls in tN for L in Ls for b in groups(N, L)]
     out.append(Leg('torch_lists', fn_torch, it, chunk=2, src_states=nlists(tN),
